@@ -322,6 +322,21 @@ func Generate(t *rapid.T, root string, o Options) *Layout {
 				d.Subdirs[sub] = map[string]*File{"inner.json": f}
 			}
 		}
+		// one directory in eight also holds an exact copy of one of its valid files under another Spec name
+		// (a backup left behind, the same Spec in the other encoding's name): its devices then have two
+		// definitions in this directory
+		if label := fmt.Sprintf("dir%d", di); !o.DistinctDevs && !o.NoInvalid && rapid.IntRange(0, 7).Draw(t, label+"copy") == 0 {
+			for _, n := range d.SortedFileNames() {
+				if f := d.Files[n]; f.Kind == Valid && f.Link == "" && IsSpecName(n) {
+					cp := *f
+					cp.Name = rapid.SampledFrom([]string{"zz-copy.json", "0-copy.yaml", n + ".yaml"}).Draw(t, label+"copyName")
+					if d.Files[cp.Name] == nil {
+						d.Files[cp.Name] = &cp
+					}
+					break
+				}
+			}
+		}
 		// a file and a subdirectory can not share a name
 		for sub := range d.Subdirs {
 			delete(d.Files, sub)
